@@ -398,7 +398,8 @@ def check_fixed_size(out, facts, S):
     if d:
         ev = sym.Evaluator(facts)
         v, t = ev.ev(d['thir'], sym.Ctx(ev, d))
-        out.ob('R13.4', 'Decode::encoded_fixed_size default [%s]' % cfg, sym.vstr(v) == 'Option::None{}', 'default is not None: ' + sym.vstr(v), d['loc'])
+        out.ob('R13.4', 'Decode::encoded_fixed_size default [%s]' % cfg, sym.vstr(v) == 'Option::None{}' and t == ['eps'],
+               'default is not unconditionally None: %s -> %s' % (sym.tstr(t)[:120], sym.vstr(v)), d['loc'])
 
 
 def run(cx, out):
